@@ -16,7 +16,7 @@ import itertools
 import vlib
 
 # not yet in coq/_CoqProject: the .vo files are used as compiled (see the final report)
-PROOF_MODULES = []          # ["C30/SolveSpec.vo", "C30/LinsolveProofs.vo"] once listed in _CoqProject
+PROOF_MODULES = ["C30/SolveSpec.vo", "C30/LinsolveProofs.vo"]
 OBLIGATIONS = [
     "C30/P_linear_sound_complete.v",
     "C30/P_quadratic_sound_complete.v",
